@@ -113,8 +113,8 @@ pub fn check_c05(tier: Tier, seed: u64) -> PropReport {
     let o = drive(&e, "C05", tier, cases, seed);
     rep.push(e.name, o);
     if tier == Tier::Thorough && fuzz_enabled() {
-        let o = fuzz_stage(&e, "C05", "farm_custody_rewards", 30_000, seed);
-        rep.push("fuzz:farm_custody_rewards", o);
+        let o = fuzz_stage(&e, "C05", "farm_history", 30_000, seed);
+        rep.push("fuzz:farm_history", o);
     }
     rep.floor("position close: partial", cases / 4);
     rep.floor("emergency exit with an active farm", cases / 20);
@@ -130,8 +130,8 @@ pub fn check_c06(tier: Tier, seed: u64) -> PropReport {
     let o = drive(&e, "C06", tier, cases, seed);
     rep.push(e.name, o);
     if tier == Tier::Thorough && fuzz_enabled() {
-        let o = fuzz_stage(&e, "C06", "farm_custody_rewards", 30_000, seed);
-        rep.push("fuzz:farm_custody_rewards", o);
+        let o = fuzz_stage(&e, "C06", "farm_history", 30_000, seed);
+        rep.push("fuzz:farm_history", o);
     }
     rep.floor("claim: paid > 0", cases / 2);
     rep.floor("claim: back-dated until_epoch", cases / 2);
@@ -144,6 +144,10 @@ pub fn check_c08(tier: Tier, seed: u64) -> PropReport {
     let cases = n(tier, 6000, 40_000);
     let o = drive(&e, "C08", tier, cases, seed);
     rep.push(e.name, o);
+    if tier == Tier::Thorough && fuzz_enabled() {
+        let o = fuzz_stage(&e, "C08", "farm_history", 30_000, seed);
+        rep.push("fuzz:farm_history", o);
+    }
     rep.floor("withdraw attempt within 1s of the unlock instant", cases / 20);
     rep.floor("position withdraw: after unlock", cases / 8);
     rep.floor("position close: partial", cases / 4);
@@ -157,6 +161,10 @@ pub fn check_c11(tier: Tier, seed: u64) -> PropReport {
     let cases = n(tier, 6000, 40_000);
     let o = drive(&e, "C11", tier, cases, seed);
     rep.push(e.name, o);
+    if tier == Tier::Thorough && fuzz_enabled() {
+        let o = fuzz_stage(&e, "C11", "farm_history", 30_000, seed);
+        rep.push("fuzz:farm_history", o);
+    }
     // the limit clause for every configured number (engine 2)
     let lim = n(tier, 600, 6000);
     let o = drive(&crate::props::c11_limit::FarmLimit, "C11", tier, lim, seed);
@@ -176,6 +184,10 @@ pub fn check_c07(tier: Tier, seed: u64) -> PropReport {
     let cases = n(tier, 6000, 50_000);
     let o = drive(&e, "C07", tier, cases, seed);
     rep.push(e.name, o);
+    if tier == Tier::Thorough && fuzz_enabled() {
+        let o = fuzz_stage(&e, "C07", "farm_history", 30_000, seed);
+        rep.push("fuzz:farm_history", o);
+    }
     let t = n(tier, 1500, 20_000);
     let o = drive(&Schedules, "C07", tier, t, seed);
     rep.push(Schedules.name(), o);
@@ -192,6 +204,10 @@ pub fn check_c09(tier: Tier, seed: u64) -> PropReport {
     let cases = n(tier, 6000, 40_000);
     let o = drive(&e, "C09", tier, cases, seed);
     rep.push(e.name, o);
+    if tier == Tier::Thorough && fuzz_enabled() {
+        let o = fuzz_stage(&e, "C09", "farm_history", 30_000, seed);
+        rep.push("fuzz:farm_history", o);
+    }
     let t = n(tier, 3000, 30_000);
     let o = drive(&Decay, "C09", tier, t, seed);
     rep.push(Decay.name(), o);
@@ -209,6 +225,10 @@ pub fn check_c10(tier: Tier, seed: u64) -> PropReport {
     let cases = n(tier, 6000, 50_000);
     let o = drive(&e, "C10", tier, cases, seed);
     rep.push(e.name, o);
+    if tier == Tier::Thorough && fuzz_enabled() {
+        let o = fuzz_stage(&e, "C10", "farm_history", 30_000, seed);
+        rep.push("fuzz:farm_history", o);
+    }
     rep.floor("c10: full exit after split positions while others hold weight", cases / 10);
     rep.floor("c10: weight added", cases * 4);
     rep.floor("c10: weight removed", cases);
